@@ -223,10 +223,18 @@ def coq_bool(b):
 # known findings
 
 def load_known():
+    """committed known findings: known_findings.json plus one file per finding in known_findings.d/"""
+    out = []
     p = os.path.join(VERIF, "known_findings.json")
-    if not os.path.exists(p):
-        return []
-    return json.load(open(p)).get("findings", [])
+    if os.path.exists(p):
+        out += json.load(open(p)).get("findings", [])
+    d = os.path.join(VERIF, "known_findings.d")
+    if os.path.isdir(d):
+        for f in sorted(os.listdir(d)):
+            if f.endswith(".json"):
+                x = json.load(open(os.path.join(d, f)))
+                out += x if isinstance(x, list) else [x]
+    return out
 
 
 def kf_match(prop, key):
